@@ -12,8 +12,8 @@ outcome of the early `try_recv`.  Decided per path (z3 and cvc5):
   * select answers with the handle's id: exactly one Clear request with id = that id = tid -> awaited -> the answer must be
     Cleared with that id -> Cleared;
   * no path yields two outcomes, every Ready outcome is Completed or Cleared.
-Which branch `select_biased!` prefers when both are ready, and the uniqueness of ids (an atomic counter), are contracts /
-stated, not decided here.  Replay: `kani/timer_replay` (the real command API: fire, clear before/while pending, late
+Which arm the `select_biased!` expansion polls first is read off the MIR of its poll closure (the array of arm pollers, traced to
+what each arm polls): the shell's answer before the handle's channel.  The uniqueness of ids (an atomic counter) is stated, not decided.  Replay: `kani/timer_replay` (the real command API: fire, clear before/while pending, late
 clear, dropped handle, two timers).
 """
 import glob
@@ -40,7 +40,7 @@ CONTRACT_TEXT = [
     "oneshot::Receiver::try_recv answers Ok(Some(cid)) / Ok(None) / Err(Canceled); the select future answers Pending / the shell's response (any of the four TimeResponse kinds, any id) / the handle's message Ok(cid) or Err(Canceled); "
     "the Clear request's future answers Pending / any TimeResponse with any id",
     "the only sender on the handle's oneshot channel is TimerHandle::clear, which sends the handle's own timer id - the id of this timer (both are created from one get_timer_id() call in notify_after / notify_at); so a message on it carries this timer's id",
-    "which branch select_biased! takes when both are ready (the response first) is futures' macro contract, not decided here; timer id uniqueness rests on get_timer_id's atomic fetch_add (distinct until the counter wraps)",
+    "select_biased! polls its arms in the order of the array its expansion builds (read off the MIR: response arm first); timer id uniqueness rests on get_timer_id's atomic fetch_add (distinct until the counter wraps)",
     "a shell answer of the wrong kind or with the wrong id panics by the code's documented choice ('developer error'); those panics are recorded, not counted as violations",
 ]
 
@@ -164,6 +164,34 @@ def build_timer_replay(prop):
                            timeout=1200, log=os.path.join(LOGS, prop, "build-timer_replay.log"))
     binp = os.path.join(tdir, "debug", "timer_replay")
     return rc == 0 and os.path.exists(binp), binp, out
+
+
+def select_arm_order(mir):
+    """every select poll_fn closure of crux_time's command module: what its arms poll, in the order of the array the macro builds"""
+    out = []
+    for m in re.finditer(r"^fn (command::[^\n]*?)\((_1: &mut \{closure@[^}]*select_mod\.rs[^\n]*)\n(.*?)\n}\n", mir, re.M | re.S):
+        name, body = m.group(1), m.group(3)
+        arr = re.search(r"^\s*(_\d+) = \[copy (_\d+), copy (_\d+)\];", body, re.M)
+        if not arr:
+            continue
+        aggs = [a.group(1) for a in re.finditer(r"^\s*(_\d+) = \{closure@[^}]*select_mod\.rs[^}]*\} \{", body, re.M)]
+        arms = []
+        for el in arr.group(2, 3):
+            c = re.search(r"^\s*" + el + r" = copy (_\d+) as &mut dyn", body, re.M)
+            r_ = c and re.search(r"^\s*" + c.group(1) + r" = &mut (_\d+);", body, re.M)
+            if not r_ or r_.group(1) not in aggs:
+                raise Unsupported(f"{name}: cannot trace array element {el} to an arm closure")
+            k = aggs.index(r_.group(1))
+            arm = re.search(r"^fn " + re.escape(name) + r"::\{closure#" + str(k) + r"\}\(_1:[^\n]*\n(.*?)\n}\n", mir, re.M | re.S)
+            if not arm:
+                raise Unsupported(f"{name}: arm closure #{k} not found")
+            polls = re.findall(r"= <Pin<&mut ([^\n]*?)> as FutureExt>::poll_unpin\(", arm.group(1))
+            kind = ["response" if "ShellRequest<" in t else "handle" if "oneshot::Receiver<" in t or "Receiver<" in t else "other:" + t[:40] for t in polls]
+            if len(kind) != 1:
+                raise Unsupported(f"{name}: arm closure #{k} polls {len(kind)} futures")
+            arms.append(kind[0])
+        out.append((name, arms))
+    return out
 
 
 def native(binp):
@@ -304,6 +332,30 @@ def run_property(prop, cfg, tier, known, only=None):
                 sample["encoder_gap"] = f"{type(u).__name__}: {u}"
             res["samples"].append(sample)
             say(f"  [{unit:>24}] paths={sample.get('paths')} obligations={len(sample['queries'])}")
+
+        # ---- which arm the biased select polls first (the shell's answer must win over the handle)
+        unit = "select_prefers_response"
+        sample = {"unit": unit, "what": "the array of arm pollers the select_biased! expansion builds, traced to what each arm polls", "queries": []}
+        try:
+            sels = select_arm_order(mir)
+            if len(sels) < 1:
+                raise Unsupported("no select poll closure with a two-arm array in crux_time's command module")
+            for name, arms in sels:
+                res["obligations"] += 1
+                res["queries"] += 1
+                res["decided"] += 1
+                okk = arms == ["response", "handle"]
+                sample["queries"].append({"obligation": "the shell's answer is polled before the handle's channel", "select": name[-60:], "arms": arms, "holds": okk})
+                if okk:
+                    res["discharged"] += 1
+                    witnesses.add(f"{unit}: {name[-50:]} polls {arms}")
+                else:
+                    failed.append(f"{unit}: {name[-60:]} polls its arms in the order {arms}; a fired timer whose handle is then cleared must report Completed and send no Clear")
+        except Unsupported as u:
+            failed.append(f"{unit}: not in the shape the encoding knows ({str(u)[:140]})")
+            sample["encoder_gap"] = str(u)
+        res["samples"].append(sample)
+        say(f"  [{unit:>24}] selects={len(sample['queries'])}")
 
         dev, n = native(binp)
         res["validated_inputs"] = n
